@@ -134,4 +134,92 @@ theorem settleOutcome_spec {bal : List (Nat × Int)} {won : Bool} {bettor : Nat}
     obtain ⟨a1, a2, a3, a4, a5, a6, a7⟩ := bettorLoses_spec _ _ _ hb' hs hu
     exact ⟨a1, a2, a3, a4, a6, a7, by show getBal bal ACC_POOL - b'.owed = _; omega, rfl, rfl⟩
 
+-- ---------------------------------------------------------------------------------------------
+-- replacing the book of a market whose bets are all settled
+
+/-- the book of a resolved market without open bets is replaced by a non-active copy whose participations keep
+    address and realised profit, while pool / house-fee balances move by exactly the change of what the book owes;
+    the market queue may shrink -/
+theorem SettleInv.replaceBook {s s' : State} {b B : Book} (hI : SettleInv s) (hb : getBook s B.uid = some b)
+    (hbooks : s'.books = upsert Book.key B s.books) (hbets : s'.bets = s.bets) (hpend : s'.pending = s.pending)
+    (hmk : s'.markets = s.markets) (hq : ∀ u ∈ s'.mqueue, u ∈ s.mqueue) (hc : s'.betCount = s.betCount)
+    (hsort : Sorted Part.key B.parts)
+    (hparts : ∀ q ∈ B.parts, ∃ q0 ∈ b.parts, q.addr = q0.addr ∧ q.actualProfit = q0.actualProfit)
+    (hst : B.status ≠ OB_ACTIVE)
+    (hno : ∀ x ∈ s.bets, x.market = B.uid → x.isOpen = false)
+    (hres : ∃ m, getMarket s B.uid = some m ∧ m.resolved)
+    (hpool : getBal s'.bal ACC_POOL - B.owed = getBal s.bal ACC_POOL - b.owed)
+    (hhf : getBal s'.bal ACC_HOUSEFEE - B.owedFee = getBal s.bal ACC_HOUSEFEE - b.owedFee)
+    (hbf : getBal s'.bal ACC_BETFEE = getBal s.bal ACC_BETFEE) : SettleInv s' := by
+  obtain ⟨⟨⟨c1, c2, c3, hsb, hsp, hsbets, hpu⟩, hids⟩, ⟨k1, k2, k3, k4, k5, k6, k7, k8, k9, k10⟩⟩ := hI
+  obtain ⟨hbm, hbu⟩ := getBook_mem hb
+  have hg : ∀ u, getMarket s' u = getMarket s u := getMarket_congr hmk
+  have hsums := setBook_sums s b B hsb hb
+  have hmem : ∀ x ∈ s'.books, x = B ∨ x ∈ s.books := by
+    intro x hx
+    rw [hbooks] at hx
+    exact mem_upsert_or Book.key B x s.books hx
+  refine { toCustI := ⟨⟨?_, ?_, ?_, ?_, ?_, ?_, ?_⟩, ?_⟩, toSInv := ⟨?_, ?_, ?_, ?_, ?_, ?_, ?_, ?_, ?_, ?_⟩ }
+  · unfold owedPool
+    rw [hbooks, hbets]
+    have := hsums.1
+    unfold setBook at this
+    simp only at this
+    rw [this]
+    unfold owedPool at c1
+    omega
+  · unfold owedBetFee
+    rw [hbets, hbf]
+    exact c2
+  · unfold owedHouseFee
+    rw [hbooks]
+    have := hsums.2
+    unfold setBook at this
+    simp only at this
+    rw [this]
+    unfold owedHouseFee at c3
+    omega
+  · rw [hbooks]; exact upsert_sorted Book.key _ s.books hsb
+  · intro x hx
+    rcases hmem x hx with rfl | hx
+    · exact hsort
+    · exact hsp x hx
+  · rw [hbets]; exact hsbets
+  · intro x hx q hq
+    rcases hmem x hx with rfl | hx
+    · obtain ⟨q0, hq0, e, _⟩ := hparts q hq
+      rw [e]; exact hpu b hbm q0 hq0
+    · exact hpu x hx q hq
+  · rw [hbets, hc]; exact hids
+  · rw [hbets, hpend]; exact k1
+  · rw [hbets]; exact k2
+  · intro x hx hxs y hy hym
+    rw [hbets] at hy
+    rcases hmem x hx with rfl | hx
+    · exact hno y hy hym
+    · exact k3 x hx hxs y hy hym
+  · intro x hx q hq hqs
+    rcases hmem x hx with rfl | hx
+    · exact hst
+    · exact k4 x hx q hq hqs
+  · intro x hx hxs
+    rw [hg]
+    rcases hmem x hx with rfl | hx
+    · exact hres
+    · exact k5 x hx hxs
+  · intro u hu
+    rw [hg]
+    exact k6 u (hq u hu)
+  · rw [hbets]; exact k7
+  · rw [hbets]; exact k8
+  · rw [hmk]; exact k9
+  · intro x hx q hq hne
+    rw [hg]
+    rcases hmem x hx with rfl | hx
+    · obtain ⟨q0, hq0, _, e⟩ := hparts q hq
+      have := k10 b hbm q0 hq0 (by rw [← e]; exact hne)
+      rw [hbu] at this
+      exact this
+    · exact k10 x hx q hq hne
+
 end Sge.Core
